@@ -29,6 +29,10 @@ NAMES = "ABCD"
 SEQS = {"A": "ACC", "B": "GAT", "C": "TTG", "D": "CTA"}
 # IUPAC ambiguity codes, mixed case: every oriented string is still distinct
 SEQS_IUPAC = {"A": "ASr", "B": "WKb", "C": "nMY", "D": "HdV"}
+# ... and two more sets, so that every IUPAC letter occurs in both cases on
+# the segments A..C
+SEQS_IUPAC2 = {"A": "CGT", "B": "RBD", "C": "Ncy", "D": "gtA"}
+SEQS_IUPAC3 = {"A": "skm", "B": "whv", "C": "gat", "D": "Cmk"}
 SLEN = 3
 OVLS = ("*", "1M", "2M")
 
@@ -102,9 +106,18 @@ def spec(kind, n, segvar, links, extras=()):
 # ---------------------------------------------------------------------------
 # writing
 
+IUPAC_LETTERS = "ACGTRYKMSWBDHVN"
+
+
 def _seg_fields(name, segvar):
+  if segvar.startswith("L:"):
+    # one-letter probe: L:<letter>:<which segment carries it>
+    _, x, who = segvar.split(":")
+    carrier = "AB"[int(who)]
+    return ((x + "CA" + x) if name == carrier else "GGTT"), False
   star = (segvar == "star") or (segvar == "mix" and name in "BD")
-  seq = "*" if star else (SEQS_IUPAC if segvar == "iupac" else SEQS)[name]
+  seq = "*" if star else {"iupac": SEQS_IUPAC, "iupac2": SEQS_IUPAC2,
+                          "iupac3": SEQS_IUPAC3}.get(segvar, SEQS)[name]
   ln = star or segvar == "seqln"
   return seq, ln
 
@@ -264,10 +277,20 @@ def family_gfa1(tier, full3=True):
     for ls in full(n, k, kmin=1):
       out.append(("full", spec("g1", n, "seq", ls)))
   # F3: sequence variants on the pattern that mixes forms and overlaps
-  for sv in ("star", "seqln", "mix", "iupac"):
+  for sv in ("star", "seqln", "mix", "iupac", "iupac2", "iupac3"):
     for n in (2, 3):
-      for sh in shapes(n, 3 if sv not in ("seqln", "iupac") or not quick else 2, kmin=1):
+      for sh in shapes(n, 3 if sv not in ("seqln", "iupac", "iupac2", "iupac3") or not quick else 2, kmin=1):
         out.append(("segvar", spec("g1", n, sv, patterned(sh, 2))))
+  # F3b: every IUPAC letter, both cases, on a segment that is traversed
+  #      backwards (two segments, joined R-R or L-L: exactly one of them is
+  #      reverse complemented, whichever the implementation picks -- so the
+  #      letter is put on either of them)
+  for x in IUPAC_LETTERS + IUPAC_LETTERS.lower():
+    for who in (0, 1):
+      for pair in ((1, 3), (0, 2)):        # A.R-B.R ; A.L-B.L
+        for ov in ("*", "1M"):
+          out.append(("letters", spec("g1", 2, "L:{}:{}".format(x, who),
+                                      ((pair[0], pair[1], 0, ov),))))
   # F4: decorated graphs (lines that must survive untouched)
   for n in (2, 3):
     for sh in shapes(n, 2):
@@ -309,6 +332,18 @@ def family_gfa2_twins(tier):
       for i in range(len(ls)):
         out.append(("twin-parallel", spec("g2", n, "seq", ls,
                                           (edge_line(ls[i]),))))
+  # GFA2 lines that do not take part in the merge: fragments (one read on
+  # several segments), header, comment, custom record
+  F = lambda s, x, o: "\t".join(["F", s, x + o, "0", "1", "0", "1", "*"])
+  for n in (2, 3):
+    for sh in shapes(n, 2, kmin=1):
+      ls = patterned(sh, 2)
+      last = NAMES[n - 1]
+      for ex in ((F("A", "x", "+"), F(last, "x", "+")),
+                 (F("A", "x", "+"), F("A", "y", "-"), F("B", "x", "-"),
+                  F(last, "y", "+")),
+                 ("H\tVN:Z:2.0", "# a comment", "X\tcustom\trecord")):
+        out.append(("twin-decor", spec("g2", n, "seq", ls, ex)))
   # the same adjacencies written with the sides of the E lines exchanged
   for n in (2, 3):
     for sh in shapes(n, 3, kmin=1):
